@@ -13,9 +13,9 @@ def sweep(id, family='R', **kw):
 
 CHECKS = {
  'C01': dict(
-    rule="generated pairs of finite raw values (independent and result-targeted) x {+,-,+=,-=} and 17 inlined call shapes, each evaluated on every build configuration (8 quick / 32 thorough: GCC and Clang, -O0..-O3, c++17/20/2b); non-trivial = the exact result leaves [lowest,max] or lies within 2^17 of the limit; distinctness = 64-bit hash of (clause, arguments)",
-    clauses=[rc('C01.addsub', 4000000, 40000000), rc('C01.shape', 4000000, 40000000)],
-    floors={'C01.addsub': {'overflow': 0.10, 'at-boundary+-3': 0.01}, 'C01.shape': {'overflow': 0.10}}),
+    rule="generated pairs of finite raw values (independent and result-targeted) x {+,-,+=,-=}, 17 inlined call shapes, and generated programs with compile-time constant operands, each evaluated on every build configuration (8 quick / 32 thorough: GCC and Clang, -O0..-O3, c++17/20/2b); non-trivial = the exact result leaves [lowest,max] or lies within 2^17 of the limit; distinctness = 64-bit hash of (clause, arguments)",
+    clauses=[rc('C01.addsub', 4000000, 40000000), rc('C01.shape', 4000000, 40000000), rc('C01.const', 3000000, 30000000, kprog=True)],
+    floors={'C01.addsub': {'overflow': 0.10, 'at-boundary+-3': 0.01}, 'C01.shape': {'overflow': 0.10}, 'C01.const': {'overflow': 0.10}}),
 
  'C02': dict(
     rule="generated (a,b) pairs for fixed*fixed (independent, product-targeted at +-2^63 / +-MAXF*2^16, complementary bit lengths) and (a,n) for every integral type in both operand orders and *=; evaluated on every build configuration; non-trivial = |raw product| >= 2^62 (fixed*fixed) or product out of range / >= 2^56 (scalar)",
